@@ -72,3 +72,77 @@ Theorem C03_ban_accepted_iff :
     (str_in n registered_tags = true /\ s_created s = false /\ str_in n (s_btags s) = false).
 Proof. exact tie_ban_accepted_iff. Qed.
 Print Assumptions C03_ban_accepted_iff.
+
+
+(* ==================== second part: the Go functions translated (Props/C03w) ==================== *)
+
+(* Property C03, translation part - the ban functions of template_sets.go ARE the bans of the set
+   state machine, and every function that creates a template sets the flag that freezes them.
+
+   Props/C03.v states the ban laws about the hand-written state machine Model/SetModel.v (s_step).
+   Here the Go functions themselves are read: tools/go2v translates BanTag, BanFilter and the six
+   functions that create a template (FromString, FromBytes, FromFile, RenderTemplateString,
+   RenderTemplateBytes, RenderTemplateFile) into terms of a small Go fragment (gen/SetFuncs.v,
+   regenerated from /repo on every run), whose meaning is Spec/SpecSetFuncs.v (see Props/C20w.v
+   for [set_call], [observe], [trace_of]).  The registries tags and filters are the registered
+   names of gen/Tables.v, the tables s_step uses.
+
+   - C03w_BanTag, C03w_BanFilter: BanTag(n) / BanFilter(n) is s_step on OBanTag n / OBanFilter n,
+     for every state and name: unknown name, a template already created (the flag read with
+     atomic.LoadUint32), already banned - an error and no change; otherwise the name is banned;
+   - C03w_bans_leave_cache_alone: neither touches the cache map or its mutex;
+   - C03w_creators_set_flag: each creator, run alone with everything it calls left arbitrary
+     ([ext], only required never to clear the flag; set.FromFile is the model's), ends - if it
+     ends - with firstTemplateCreated set, for every world, arguments and depth;
+     C03w_creator_names says which functions these are;
+   - C03w_witness: a ban accepted, the flag set by the translated FromString, a later ban and a
+     ban of an unknown name refused. *)
+From PV Require Import Model.SetModel Lib.GoStmt Spec.SpecSet Spec.SpecSetFuncs gen.SetFuncs.
+From PV Require Import Tie.C03w.
+From Coq Require Import String.
+Open Scope string_scope.
+
+Theorem C03w_BanTag : forall ext d, (2 <= d)%nat -> forall s n,
+  observe read_error (set_call go_setfuncs registered_tags registered_filters ext d "BanTag" [SVStr n] (world_of s))
+  = Some (s_step s (OBanTag n)).
+Proof. exact tie_BanTag. Qed.
+Print Assumptions C03w_BanTag.
+
+Theorem C03w_BanFilter : forall ext d, (2 <= d)%nat -> forall s n,
+  observe read_error (set_call go_setfuncs registered_tags registered_filters ext d "BanFilter" [SVStr n] (world_of s))
+  = Some (s_step s (OBanFilter n)).
+Proof. exact tie_BanFilter. Qed.
+Print Assumptions C03w_BanFilter.
+
+Theorem C03w_bans_leave_cache_alone : forall tags filters ext d, (2 <= d)%nat -> forall s n m,
+  In m ["BanTag"; "BanFilter"] ->
+  trace_of (set_call go_setfuncs tags filters ext d m [SVStr n] (world_of s)) = Some [].
+Proof. exact tie_bans_leave_cache_alone. Qed.
+Print Assumptions C03w_bans_leave_cache_alone.
+
+Theorem C03w_creators_set_flag : forall f, In f go_setcreators ->
+  forall tags filters ext, keeps_flag ext -> forall d args w,
+  flag_set (set_call [f] tags filters ext d (gf_name f) args w).
+Proof. exact tie_creators_set_flag. Qed.
+Print Assumptions C03w_creators_set_flag.
+
+Theorem C03w_creator_names :
+  map gf_name go_setcreators =
+  ["FromString"; "FromBytes"; "FromFile"; "RenderTemplateString"; "RenderTemplateBytes"; "RenderTemplateFile"].
+Proof. exact tie_creator_names. Qed.
+Print Assumptions C03w_creator_names.
+
+Example C03w_witness :
+  let ban n s := set_call go_setfuncs registered_tags registered_filters no_ext 2 "BanTag" [SVStr (bytes_of_string n)]
+                          (world_of s) in
+  exists s1 w2,
+    observe read_error (ban "include" (s_init [])) = Some (s1, ROk) /\
+    s_btags s1 = [bytes_of_string "include"] /\ s_created s1 = false /\
+    keeps_flag c03w_ext /\
+    set_call [go_set_FromString] [] [] c03w_ext 2 "FromString" [SVStr (bytes_of_string "x")] (world_of s1)
+      = GOk ([SVOpaque; SVNil], w2) /\
+    s_created (sw_state w2) = true /\
+    observe read_error (ban "extends" (sw_state w2)) = Some (sw_state w2, RErr) /\
+    observe read_error (ban "no such tag" s1) = Some (s1, RErr).
+Proof. exact tie_c03w_witness. Qed.
+Print Assumptions C03w_witness.
